@@ -294,6 +294,24 @@ func init() {
 			h.pos += n
 			return tuple{n, iface{}}
 		},
+		"(*os.File).Truncate": func(fr *frame, args []value) value {
+			h := handleOf(args[0])
+			if e := h.check(fr.i); e != nil {
+				return e
+			}
+			n := int(asInt64(args[1]))
+			if n < 0 {
+				return mkError(fr.i, "truncate: invalid argument")
+			}
+			for len(h.f.data) < n {
+				h.f.data = append(h.f.data, uint8(0))
+			}
+			h.f.data = h.f.data[:n]
+			if h.f.synced > n {
+				h.f.synced = n
+			}
+			return iface{}
+		},
 		"(*os.File).Readdir": func(fr *frame, args []value) value {
 			h := handleOf(args[0])
 			if !h.isDir {
@@ -412,11 +430,18 @@ func callVerifEnv(fr *frame, name string, args []value) (value, bool) {
 	case "verifLockHeld":
 		return lockHeld(args[0].(*value)), true
 	case "verifMapOrderChoice":
-		on := args[0].(bool)
-		if on {
-			P.mapOrderChoice = func(*path) bool { return true }
-		} else {
-			P.mapOrderChoice = nil
+		// verifMapOrderChoice(pred): from now on, ranging over a map yields the
+		// entries whose value satisfies pred last and in an order chosen by
+		// forking (nil switches it off)
+		switch f := args[0].(type) {
+		case *closure:
+			P.mapOrderPred = f
+		case *ssa.Function:
+			if f == nil {
+				P.mapOrderPred = nil
+			} else {
+				P.mapOrderPred = f
+			}
 		}
 		return nil, true
 	}
